@@ -627,6 +627,21 @@ static void pubfile_followups(KSI_PublicationsFile *pf) {
 		KSI_Integer_free(t);
 	}
 	pr = NULL; CALL(); NOTE(KSI_PublicationsFile_getLatestPublication(pf, NULL, &pr)); if (pr) pubrec_touch(pr);
+	if (pr != NULL) {
+		/* a copy of the record is made and released, other hashes are created on the context: the record of the file is what it was */
+		char b1[1200], b2[1200];
+		KSI_PublicationRecord *cl = NULL;
+		KSI_DataHash *h1 = NULL, *h2 = NULL;
+		b1[0] = b2[0] = 0;
+		KSI_PublicationRecord_toString(pr, b1, sizeof b1);
+		CALL(); r = KSI_PublicationRecord_clone(pr, &cl); NOTE(r);
+		KSI_PublicationRecord_free(cl);
+		KSI_DataHash_create(ctx, "c12-clone-a", 11, KSI_HASHALG_SHA2_256, &h1);
+		KSI_DataHash_create(ctx, "c12-clone-b", 11, KSI_HASHALG_SHA2_256, &h2);
+		KSI_PublicationRecord_toString(pr, b2, sizeof b2);
+		if (strcmp(b1, b2) != 0) fail("record-changed-by-its-copy", "a publication record of the file renders differently after a copy of it was made and released and two hashes were created: '%.200s' / '%.200s'", b1, b2);
+		KSI_DataHash_free(h1); KSI_DataHash_free(h2);
+	}
 	KSI_PublicationsFile_getSignature(pf, &ps);
 	CALL(); r = KSI_PublicationsFile_serialize(ctx, pf, &raw, &rl); NOTE(r);
 	if (r == KSI_OK && raw != NULL) g_sink += (size_t)vf_fnv(raw, rl, 0);
